@@ -1,6 +1,6 @@
 CONSTANTS
-  MaxNodes = 4
-  Conds = {"none", "skipA", "includeB", "skipTrue"}
+  MaxNodes = 3
+  Conds = {"none", "skipA", "includeA", "includeB", "skipTrue"}
   Aliases = {"", "x"}
 INIT Init
 NEXT Next
